@@ -62,6 +62,9 @@ func main() {
 				}()
 				props.Get(id)(prog, rep)
 			}()
+			if *tier == "thorough" && os.Getenv("VCHECK_NO_WITNESSES") == "" {
+				runWitnesses(*repo, *verif, id, rep)
+			}
 		}
 		if c := rep.Finish(*verif); c != 0 {
 			code = 1
